@@ -195,7 +195,7 @@ func rangeFact(v Value, t types.Type) Term {
 		return and(cs...)
 	case SliceV:
 		return and(le(intLit(0), x.Off), le(intLit(0), x.Len), le(x.Len, x.Cap),
-			le(x.Cap, Term{"4611686018427387904", SInt}),
+			le(x.Cap, Term{"1152921504606846976", SInt}),
 			implies(eq(x.Base, intLit(0)), and(eq(x.Cap, intLit(0)), eq(x.Off, intLit(0)))))
 	case TupleV:
 		tt := t.(*types.Tuple)
